@@ -30,18 +30,14 @@ Lemma observer_x_spec d lon lat alt :
   gen_observer_x d lon lat alt = eci_x wgs84_A (deg2rad lon) (deg2rad lat) alt (gen_gmst d).
 Proof.
   unfold gen_observer_x, eci_x, geodetic_rho, Nc, wgs84_A. cbv zeta.
-  rewrite cos_pymod_2PI, e2_const.
-  replace (1 + - wgs84_e2 * sin (deg2rad lat) ^ 2) with (1 - wgs84_e2 * sin (deg2rad lat) ^ 2) by ring.
-  reflexivity.
+  rewrite cos_pymod_2PI, e2_const. eq_mod_ring.
 Qed.
 
 Lemma observer_y_spec d lon lat alt :
   gen_observer_y d lon lat alt = eci_y wgs84_A (deg2rad lon) (deg2rad lat) alt (gen_gmst d).
 Proof.
   unfold gen_observer_y, eci_y, geodetic_rho, Nc, wgs84_A. cbv zeta.
-  rewrite sin_pymod_2PI, e2_const.
-  replace (1 + - wgs84_e2 * sin (deg2rad lat) ^ 2) with (1 - wgs84_e2 * sin (deg2rad lat) ^ 2) by ring.
-  reflexivity.
+  rewrite sin_pymod_2PI, e2_const. eq_mod_ring.
 Qed.
 
 Lemma observer_z_spec d lon lat alt :
